@@ -83,7 +83,17 @@ def build_harness(tags="verif"):
     src_sum = os.path.join(REPO, "go.sum")
     if os.path.exists(src_sum):
         shutil.copyfile(src_sum, os.path.join(HARNESS, "go.sum"))
-    cmd = [go_bin(), "build", "-tags", tags, "-o", out, "./cmd/vrun"]
+    cmd = [go_bin(), "build", "-tags", tags, "-o", out]
+    if os.path.realpath(REPO) != "/repo":
+        # development aid: build against a scratch worktree (VERIF_REPO) without touching harness/go.mod
+        alt = os.path.join(scratch(), "alt.mod")
+        with open(os.path.join(HARNESS, "go.mod")) as f:
+            txt = f.read().replace("=> /repo", "=> " + os.path.realpath(REPO))
+        with open(alt, "w") as f:
+            f.write(txt)
+        shutil.copyfile(src_sum, os.path.join(scratch(), "alt.sum"))
+        cmd += ["-modfile", alt]
+    cmd += ["./cmd/vrun"]
     t0 = time.time()
     p = subprocess.run(cmd, cwd=HARNESS, env=go_env(), stdout=subprocess.PIPE, stderr=subprocess.STDOUT, text=True)
     if p.returncode != 0:
